@@ -14,3 +14,7 @@ reg("C02", "exhaustive toy-curve truth tables + Hypothesis differential testing 
     "On toy curves every (key, challenge, nonce) triple is signed through the public API and compared with SEC 1 (signature, low-s, recovery id, recovery), and the verification verdict is compared on the complete (c,Q,r,s) table with r,s in [0,n] - exhaustive on those finite domains. On catalogued curves x 10 hash functions Hypothesis compares deterministic signatures byte for byte with an independent RFC 6979 + SEC 1 model (both backends on secp256k1), checks grinding, Signer, recovery and single-field forgeries; strict DER parsing is compared with BIP66 on canonical encodings under stacked structural mutations.",
     "Trusted: vlib/models/ecdsa_ref.py + ec_ref.py (validated on RFC 6979 A.2.5), hashlib/hmac. bms message signatures are exercised under C10.",
     "DESIGN.md §1 C02")
+reg("C03", "Hypothesis differential testing vs the BIP340 reference implementation; batch = conjunction metamorphic relation; exhaustive toy-curve truth table",
+    "Generated (key, message of 0..200 bytes, aux) signatures equal the BIP's reference.py byte for byte on both backends; verify_ equals the reference verdict on valid signatures, one-field near-misses (bit flips, n-s, r>=p, s>=n, x>=p, unliftable r/x) and random triples for every key spelling, never raising; batch_verify_ equals the conjunction of individual verdicts for sizes 1..40 with bad members anywhere, duplicates, permutations and cancelling pairs; sign-to-contract opens only with its commitment; on toy curves the whole (x_Q,r,s) table is compared with the verification equation.",
+    "Trusted: vlib/models/bip340_ref.py (the BIP's reference, validated on its vectors). Off secp256k1/sha256 the oracle is the equation with the library's public challenge_.",
+    "DESIGN.md §1 C03")
